@@ -649,6 +649,12 @@ func statusFromError(id uint32, err error) *sshFxpStatusPacket {
 		ret.StatusError.Code = code
 		return ret
 	}
+	if os.IsPermission(err) {
+		// os.ErrPermission, and EACCES/EPERM inside *os.LinkError or *os.SyscallError,
+		// which translateSyscallError does not look into.
+		ret.StatusError.Code = sshFxPermissionDenied
+		return ret
+	}
 
 	if errors.Is(err, io.EOF) {
 		ret.StatusError.Code = sshFxEOF
